@@ -74,6 +74,8 @@ pub struct EnergySpec {
     pub capacity_kwh: f64,
     /// (cache size, speed key precision, grade key precision) of the prediction cache
     pub cache_cfg: (usize, i32, i32),
+    /// real_world_energy_adjustment of every model of the vehicle
+    pub adjustment: Option<f64>,
 }
 
 impl AppSpec {
@@ -333,7 +335,8 @@ pub fn write_config(spec: &AppSpec, dir: &Path) -> std::io::Result<(PathBuf, Str
         std::fs::write(&gp, en.grades.iter().map(|s| format!("{s:?}")).collect::<Vec<_>>().join("\n") + "\n")?;
         let mdir = "/repo/rust/routee-compass-powertrain/src/routee/test";
         let cache = if en.cache { format!(", float_cache_policy = {{ cache_size = {}, key_precisions = [{}, {}] }}", en.cache_cfg.0, en.cache_cfg.1, en.cache_cfg.2) } else { String::new() };
-        let model = |name: &str, file: &str, eru: &str| format!("name = \"{name}\", model_input_file = \"{mdir}/{file}\", model_type = \"smartcore\", speed_unit = \"miles_per_hour\", grade_unit = \"decimal\", energy_rate_unit = \"{eru}\", ideal_energy_rate = 0.05{cache}");
+        let adj = en.adjustment.map(|a| format!(", real_world_energy_adjustment = {a:?}")).unwrap_or_default();
+        let model = |name: &str, file: &str, eru: &str| format!("name = \"{name}\", model_input_file = \"{mdir}/{file}\", model_type = \"smartcore\", speed_unit = \"miles_per_hour\", grade_unit = \"decimal\", energy_rate_unit = \"{eru}\", ideal_energy_rate = 0.05{adj}{cache}");
         let vehicle = match en.vehicle.as_str() {
             "ice" => format!("{{ type = \"ice\", {} }}", model("ice", "Toyota_Camry.bin", "gallons_gasoline_per_mile")),
             "bev" => format!("{{ type = \"bev\", battery_capacity = {:?}, battery_capacity_unit = \"kilowatt_hours\", {} }}", en.capacity_kwh, model("bev", "2017_CHEVROLET_Bolt.bin", "kilowatt_hours_per_mile")),
